@@ -35,23 +35,25 @@ type C13Case struct {
 	Clients  []C13Client `json:"clients"`
 	InPlace  bool        `json:"inplace"`          // filters compact the slice they are handed in place (user code may)
 	Repeat   int         `json:"repeat,omitempty"` // every client runs its request list this many more times (bursts of concurrent lists)
+	NilOut   bool        `json:"nilout,omitempty"` // filters build their result with append on a nil slice: a caller admitted to nothing gets a nil slice back
 }
 
 func genC13(t *rapid.T) C13Case {
 	c := C13Case{Mode: rapid.SampledFrom([]Mode{ModeSJ, ModeSS, ModeLJ, ModeLS, ModeLegacy}).Draw(t, "mode"), CtxFuncs: rapid.IntRange(1, 3).Draw(t, "ctxfuncs"), InPlace: rapid.Bool().Draw(t, "inplace")}
 	n := rapid.IntRange(2, 10).Draw(t, "nclients")
 	for i := 0; i < n; i++ {
-		cl := C13Client{Class: rapid.SampledFrom([]string{"a", "b", "c"}).Draw(t, "class")}
+		cl := C13Client{Class: rapid.SampledFrom([]string{"a", "b", "c", "n"}).Draw(t, "class")} // class n is admitted to nothing at all
 		k := rapid.IntRange(1, 6).Draw(t, "nreqs")
 		for j := 0; j < k; j++ {
 			rq := C13Req{Kind: rapid.SampledFrom([]string{"call", "call", "listtools", "listtools", "listprompts", "listres", "listres"}).Draw(t, "kind"), Lat: rapid.IntRange(0, 4).Draw(t, "lat")}
 			if rapid.IntRange(0, 3).Draw(t, "as") == 0 {
-				rq.As = rapid.SampledFrom([]string{"a", "b", "c"}).Draw(t, "asclass")
+				rq.As = rapid.SampledFrom([]string{"a", "b", "c", "n"}).Draw(t, "asclass")
 			}
 			cl.Reqs = append(cl.Reqs, rq)
 		}
 		c.Clients = append(c.Clients, cl)
 	}
+	c.NilOut = rapid.Bool().Draw(t, "nilout")
 	if c.Mode != ModeLegacy && rapid.IntRange(0, 5).Draw(t, "burst") == 0 {
 		c.Repeat = rapid.SampledFrom([]int{20, 60}).Draw(t, "repeat")
 	}
@@ -69,6 +71,9 @@ func ntC13(c C13Case) (bool, []string) {
 type c13Key string
 
 func admits(class, name string) bool {
+	if class == "n" {
+		return false
+	}
 	return strings.HasPrefix(name, class+"-") || strings.HasPrefix(name, "pub-") || strings.HasPrefix(name, "file:///"+class+"-") || strings.HasPrefix(name, "file:///pub-")
 }
 
@@ -113,7 +118,9 @@ func execC13(c C13Case) *Failure {
 	toolFilter := func(ctx context.Context, tools []*mcp.Tool) []*mcp.Tool {
 		cls := classOf(ctx)
 		out := make([]*mcp.Tool, 0, len(tools))
-		if c.InPlace {
+		if c.NilOut {
+			out = nil
+		} else if c.InPlace {
 			out = tools[:0]
 		}
 		for _, t := range tools {
@@ -126,7 +133,9 @@ func execC13(c C13Case) *Failure {
 	promptFilter := func(ctx context.Context, ps []*mcp.Prompt) []*mcp.Prompt {
 		cls := classOf(ctx)
 		out := make([]*mcp.Prompt, 0, len(ps))
-		if c.InPlace {
+		if c.NilOut {
+			out = nil
+		} else if c.InPlace {
 			out = ps[:0]
 		}
 		for _, p := range ps {
@@ -139,7 +148,9 @@ func execC13(c C13Case) *Failure {
 	resFilter := func(ctx context.Context, rs []*mcp.Resource) []*mcp.Resource {
 		cls := classOf(ctx)
 		out := make([]*mcp.Resource, 0, len(rs))
-		if c.InPlace {
+		if c.NilOut {
+			out = nil
+		} else if c.InPlace {
 			out = rs[:0]
 		}
 		for _, r := range rs {
@@ -362,7 +373,7 @@ func execC13(c C13Case) *Failure {
 						}
 					}
 				}
-				if cr.req.Kind == "listtools" {
+				if cr.req.Kind == "listtools" && admits(cls, "pub-echo") {
 					want = append(want, "pub-echo")
 				}
 				got := append([]string(nil), cr.list...)
